@@ -398,7 +398,7 @@ impl Sim for NodeSim {
             }
         }
         // big-register runs concentrate on register 0: replicated copies with the owner's ops and differing shares
-        let big_registers = ctx.property == "C07" && ctx.mode != "concurrent" && rng.chance(1, 40);
+        let big_registers = ctx.property == "C07" && ctx.mode != "concurrent" && rng.chance(1, 64);
         let mut steps = steps;
         if big_registers {
             for st in steps.iter_mut() {
